@@ -8,7 +8,7 @@ from ..cfg import cfg_of
 from ..effects import is_self_attr
 from ..interp import Frame, Unsupported, fresh
 from ..loader import AnalysisError, norm_text
-from ..terms import K, S, ZERO, alpha_norm, show_norm, subterms
+from ..terms import K, S, T_sub, ZERO, alpha_norm, show_norm, subterms
 from .common import Context, calls_in, self_call_name
 from .solverterms import GAMMA, VALUES, brief, same, solver_interp
 
@@ -88,8 +88,26 @@ def _eval_loop(ctx, cls, file, col):
         raise AnalysisError(f"anchor vanished: {construct} has {len(loops)} top-level for loops")
     lp = loops[0]
     it = lp.iter
-    ok_range = (isinstance(it, ast.Call) and isinstance(it.func, ast.Name) and it.func.id == "range" and len(it.args) == 1
-                and ast.unparse(it.args[0]) in ("self.config.max_eval_iter", "self.max_eval_iter"))
+    # trip count == max_eval_iter: range(n), range(0, n), range(k, n + k) ...
+    ok_range = False
+    if isinstance(it, ast.Call) and isinstance(it.func, ast.Name) and it.func.id == "range" and 1 <= len(it.args) <= 2 and not it.keywords:
+        def budget_term(e):
+            class R(ast.NodeTransformer):
+                def visit_Attribute(self, n):
+                    if ast.unparse(n) in ("self.config.max_eval_iter", "self.max_eval_iter"):
+                        return ast.Name(id="BUDGET__", ctx=ast.Load())
+                    return n
+            import copy
+            return R().visit(copy.deepcopy(e))
+        try:
+            from ..interp import Frame as _F
+            I0 = solver_interp(ctx, cls, "span")
+            env0 = {"BUDGET__": S("BUDGET")}
+            hi = I0.ev(budget_term(it.args[-1]), env0, _F(owner, owner.module, fn))
+            lo = I0.ev(budget_term(it.args[0]), env0, _F(owner, owner.module, fn)) if len(it.args) == 2 else ZERO
+            ok_range = T_sub(hi, lo) == S("BUDGET")
+        except Unsupported:
+            ok_range = False
     col.add("R5.2", construct, file, lp.lineno, ok_range,
             "evaluation budget is range(self.config.max_eval_iter)" if ok_range else f"loop runs over `{ast.unparse(it)}`",
             text="evaluation budget")
